@@ -135,6 +135,7 @@ func c08Eval(cs c08Case) *Case {
 			parent = cur
 			parentGet = cur.Get(key)
 			cur = cur.New()
+			loaded = false // a New() copy holds the variables, not the file
 		case "load":
 			parent = cur
 			parentGet = cur.Get(key)
@@ -161,6 +162,17 @@ func c08Eval(cs c08Case) *Case {
 	case cs.Theme:
 		want = "theme"
 	}
+	getBefore := cur.Get(key)
+	// a later Fill/Assign that defines the key overrides every earlier value — unless the template at hand IS the loaded page and its own
+	// front-matter defines the key (front-matter is authoritative for the file it belongs to, not for copies made of it)
+	if n := len(cs.Calls); n > 0 && lay != nil && !(loaded && cs.FM) {
+		switch cs.Calls[n-1] {
+		case "fill-map", "fill-struct", "fill-ptr", "assign", "fill-map-blank", "fill-struct-blank":
+			if getBefore != lay.val {
+				fail("later-value-not-seen:get", "after %v Get(%s) = %q, expected %q (case %+v)", cs.Calls, key, getBefore, lay.val, cs)
+			}
+		}
+	}
 	var buf bytes.Buffer
 	tpl := cur
 	if !loaded {
@@ -177,7 +189,7 @@ func c08Eval(cs c08Case) *Case {
 	}()
 	out := buf.String()
 	if err != nil {
-		c.Impl = map[string]any{"err": true}
+		c.Impl = map[string]any{"err": true, "get": getBefore}
 		fail("render-error", "%v", err)
 		return c
 	}
@@ -190,7 +202,7 @@ func c08Eval(cs c08Case) *Case {
 	if m := titleRe.FindStringSubmatch(out); m != nil {
 		attr = m[1]
 	}
-	c.Impl = got["mustache"]
+	c.Impl = map[string]any{"render": got["mustache"], "get": getBefore}
 	if got["mustache"] != want {
 		fail("precedence:mustache", "{{ %s }} shows %q, expected %q (case %+v)", key, got["mustache"], want, cs)
 	}
@@ -267,7 +279,10 @@ func runC08(r *Run, replay *Case) {
 		for _, b := range post {
 			posts = append(posts, []string{a, b})
 		}
+		// a New() copy of the LOADED page is a file-less template: what it is given afterwards is not overridden by a front-matter it never loaded
+		posts = append(posts, []string{"new", a}, []string{a, "new"}, []string{"new", a, "fill-empty"})
 	}
+	posts = append(posts, []string{"new"})
 	pres := [][]string{{}, {"fill-map"}, {"assign"}, {"fill-map", "assign"}, {"new"}, {"fill-struct", "new"}}
 	for _, key := range []string{"k", "K"} {
 		for mask := 0; mask < 8; mask++ {
